@@ -207,6 +207,29 @@ trait DataPointBuilder {
                 Ok(())
             }
 
+            // OTLP integers are signed 64bit; integers outside that range are still numbers
+            // They're exported as doubles instead of being mistaken for text
+            fn u64(&mut self, value: u64) -> sval::Result {
+                match i64::try_from(value) {
+                    Ok(value) => self.i64(value),
+                    Err(_) => self.f64(value as f64),
+                }
+            }
+
+            fn i128(&mut self, value: i128) -> sval::Result {
+                match i64::try_from(value) {
+                    Ok(value) => self.i64(value),
+                    Err(_) => self.f64(value as f64),
+                }
+            }
+
+            fn u128(&mut self, value: u128) -> sval::Result {
+                match i64::try_from(value) {
+                    Ok(value) => self.i64(value),
+                    Err(_) => self.f64(value as f64),
+                }
+            }
+
             fn seq_begin(&mut self, _: Option<usize>) -> sval::Result {
                 if self.in_seq {
                     return sval::error();
